@@ -25,7 +25,7 @@ EXPLANATION = (
     " (R10) declared raw sizes: the uncompressed_size a writer Block is built with derives from a len() that is not downstream of a codec encode call (genuine defect F35, repaired: the fqzcomp arm declared the compressed length)."
     " (R11) sentinel vs terminator: the marker written for an unnamed record is free of the terminator of the NUL-terminated name series and is the marker the reader maps back to None (genuine defect F38, repaired). (R12) the predicate that raises the file version to 3.1 names every CRAM 3.1 codec and is asked about every encoder slot of the map (genuine defect F39, repaired)."
     " (R13) the TLEN sign belongs to the leftmost segment: resolve_mates compares alignment starts before it assigns +TLEN / -TLEN (genuine defect F40, repaired)."
-    " (R14) declared lengths: itf8_size_of agrees with the number of bytes write_itf8 emits on every one of the 33 bit-length classes of an i32 (A11 bit-class interpreter over the MIR of both; classes using an unmodelled construct are not decided). (R15) memo coherence: a loop-carried memo in noodles_cram updates its key only where the value was refreshed or found equal (0 memos today; round-7 seed).")
+    " (R14) declared lengths: itf8_size_of agrees with the number of bytes write_itf8 emits on every one of the 33 bit-length classes of an i32 (A11 bit-class interpreter over the MIR of both; classes using an unmodelled construct are not decided). (R15) memo coherence: a loop-carried memo in noodles_cram updates its key only where the value was refreshed or found equal (0 memos today; round-7 seed). (R16) the substitution-matrix row is sorted as a whole.")
 ASSUMPTIONS = ["flate2 Crc/CrcReader/CrcWriter compute CRC32 of exactly the bytes passed through", "md5 crate",
                "function-stem pairing (read_x <-> write_x) reflects the symmetric structure of the two record codecs (floor-checked)"]
 NOT_DECIDED = ["record equality: feature/CIGAR/base reconstruction, mate resolution, every encoder option x codec",
@@ -263,6 +263,25 @@ def run(ctx):
     n15 = a10.memo_coherence_rule(ctx, "C07.R15", r"^<?noodles_cram::")
     if not n15:
         ctx.ok("C07.R15", "no loop-carried memo in noodles_cram", "0 (key, value, comparison) triples found")
+
+    ctx.rule("C07.R16", "the serialised substitution-matrix row is the FULL order of the row's four substitutions: in "
+                        "substitution_matrix::encode every sort runs over the whole row, never over a sub-slice (`[..3]`): a partial sort "
+                        "leaves the row the reader decodes different from the row the writer codes substitutions with whenever the last "
+                        "column does not already sort last (X>N more frequent than some X>Y)")
+    f16 = ctx.anchor("C07.R16", "noodles_cram::io::writer::container::compression_header::preservation_map::substitution_matrix::encode")
+    if f16 is not None:
+        ctx.saw_fn(f16)
+        sorts = [(b, c) for b, c in f16.calls() if re.search(r"::sort(_unstable)?(_by|_by_key|_by_cached_key)?$", c.get("f") or "")]
+        if not sorts:
+            ctx.violation("C07.R16", "C07.R16/ANCHOR-MISSING/encode/sort", "substitution_matrix::encode no longer sorts the row", f16.loc())
+        for b16, c16 in sorts:
+            sub = R.derives_from_call(f16, c16["args"][0], R.mk_pred(r"ops::index::Index(Mut)?<.*::index(_mut)?$|slice::<impl \[T\]>::(split_at(_mut)?|get(_mut)?|first_chunk|split_first|split_last)"))
+            if sub:
+                ctx.violation("C07.R16", "C07.R16/partial-row-sort/" + f16.key,
+                              "substitution_matrix::encode sorts a sub-slice of the row: the serialised order of the four substitutions is "
+                              "no longer the order the writer codes with, and reads with such a substitution decode to the wrong base", f16.loc(b16))
+            else:
+                ctx.ok("C07.R16", f16.key, "the row is sorted as a whole", f16.loc(b16))
 
     ctx.rule("C07.R7", "A7 span of a template: the reader recomputes TLEN of in-slice mates from min(start of both segments) and max(END of both "
                        "segments) — each alignment_end() result feeds the maximum")
